@@ -26,7 +26,7 @@ theorem leaveStruct_inv {orph : List Nat} {h : Hub} (hi : InvX orph h) {s : Nat}
     obtain ⟨rm', h1, h2⟩ := hi.room_mem' s x r hx hr
     rw [hrm] at h1; cases h1; exact h2
   unfold leaveStruct
-  obtain ⟨f1, f2, f3, f4, f5, f6, f7, f8, f9, f10, f11, f12, f13, f14, f15, f16, f17, f18, f19, f20, f21, f22, f23⟩ := hi
+  obtain ⟨f1, f2, f3, f4, f5, f6, f7, f8, f9, f10, f11, f12, f13, f14, f15, f16, f17, f18, f19, f20, f21, f22, f23, f24⟩ := hi
   have hall : removeL rm.members s = [] → ∀ t, t ∈ rm.members → t = s := by
     intro he t ht
     apply Decidable.byContradiction
